@@ -83,7 +83,11 @@ def check(scn, H, view=None):
                 elif prev is not None and prev['held'] is True and prev['impl'] and \
                         not s['first']:
                     for p in range(N):
-                        if pos[p][k] != pos[p][k - 1]:
+                        # (a user's in-place unit conversion of a live
+                        # position may change its last bit)
+                        if pos[p][k] != pos[p][k - 1] and \
+                                abs(pos[p][k] - pos[p][k - 1]) > 1e-12 * max(
+                                    abs(pos[p][k]), abs(pos[p][k - 1])):
                             viol('held-position-changed', epoch=ep['index'],
                                  instant=k, element=p, before=pos[p][k - 1],
                                  after=pos[p][k])
